@@ -3,7 +3,7 @@
 /repo's working tree: each worker owns a scratch worktree of /repo HEAD (outside /repo and /verif, removed at the
 end), applies the stored patch there and runs the checks with --repo. Updates seeded/<name>/meta.json.
 
-  tools/recheck_parallel.py [-j N] [names...]
+  tools/recheck_parallel.py [-j N] [--benign] [names...]      (--benign: the refactorings under seeded/benign)
 """
 import json
 import os
@@ -23,6 +23,39 @@ def sh(cmd, cwd=None, timeout=1200):
     except subprocess.TimeoutExpired:
         return 124, 'TIMEOUT'
     return p.returncode, p.stdout + p.stderr
+
+
+def work_benign(job):
+    wt, names, props, head = job
+    rows = []
+    for name in names:
+        d = os.path.join(VERIF, 'seeded', 'benign', name)
+        meta = json.load(open(os.path.join(d, 'meta.json')))
+        sh('git checkout -- .', cwd=wt)
+        rc, out = sh('git apply %s' % os.path.join(d, 'patch.diff'), cwd=wt)
+        if rc != 0:
+            meta['applies_to_head'] = False
+            meta['note'] = 'written against an earlier /repo commit; a later repair touched the same lines'
+            json.dump(meta, open(os.path.join(d, 'meta.json'), 'w'), indent=1)
+            rows.append((name, None))
+            print('%-10s does not apply to %s (skipped)' % (name, head), flush=True)
+            continue
+        alarms = {}
+        ev = tempfile.mkdtemp(prefix='benign_ev_')
+        for pid in props:
+            rc, out = sh('%s check %s --tier quick --repo %s --evidence-dir %s' % (PY, pid, wt, ev), cwd=VERIF)
+            if rc != 0:
+                alarms[pid] = {'exit': rc, 'lines': [l for l in out.splitlines() if 'VIOLATION' in l or 'ANALYSIS-ERROR' in l
+                                                    or '[R-' in l or '[D-' in l][:8]}
+        shutil.rmtree(ev, ignore_errors=True)
+        sh('git checkout -- .', cwd=wt)
+        meta['alarms'] = alarms
+        meta['applies_to_head'] = True
+        meta['checked_at'] = head
+        json.dump(meta, open(os.path.join(d, 'meta.json'), 'w'), indent=1)
+        rows.append((name, alarms))
+        print('%-10s %s' % (name, 'silent' if not alarms else 'ALARMS %s' % sorted(alarms)), flush=True)
+    return rows
 
 
 def work(job):
@@ -64,8 +97,14 @@ def main():
     if args[:1] == ['-j']:
         jobs = int(args[1])
         args = args[2:]
+    benign = False
+    if args[:1] == ['--benign']:
+        benign = True
+        args = args[1:]
     m = json.load(open(os.path.join(VERIF, 'MANIFEST.json')))
     props = [c['property_id'] for c in m['checks']]
+    if benign:
+        return main_benign(jobs, args, props)
     names = [n for n in sorted(os.listdir(os.path.join(VERIF, 'seeded')))
              if os.path.exists(os.path.join(VERIF, 'seeded', n, 'meta.json')) and (not args or n in args)]
     base = tempfile.mkdtemp(prefix='recheck_wt_')
@@ -87,6 +126,31 @@ def main():
     done = [r for r in rows if r[2] is not None]
     print('%d seeded changes (%d do not apply to HEAD): %d caught by the target property\'s check, %d caught by some check, %d missed'
           % (len(rows), len(rows) - len(done), sum(r[2] for r in done), sum(bool(r[3]) for r in done), sum(not r[3] for r in done)))
+
+
+def main_benign(jobs, args, props):
+    base_dir = os.path.join(VERIF, 'seeded', 'benign')
+    names = [n for n in sorted(os.listdir(base_dir))
+             if os.path.exists(os.path.join(base_dir, n, 'meta.json')) and (not args or n in args)]
+    head = sh('git -C /repo rev-parse --short HEAD')[1].strip()
+    base = tempfile.mkdtemp(prefix='recheck_wt_')
+    wts = []
+    try:
+        for k in range(jobs):
+            wt = os.path.join(base, 'w%d' % k)
+            rc, out = sh('git -C /repo worktree add -f --detach %s HEAD' % wt)
+            assert rc == 0, out
+            wts.append(wt)
+        with ThreadPoolExecutor(jobs) as ex:
+            rows = [r for part in ex.map(work_benign, [(wts[k], names[k::jobs], props, head) for k in range(jobs)]) for r in part]
+    finally:
+        for wt in wts:
+            sh('git -C /repo worktree remove --force %s' % wt)
+        sh('git -C /repo worktree prune')
+        shutil.rmtree(base, ignore_errors=True)
+    done = [r for r in rows if r[1] is not None]
+    print('%d refactorings: %d silent, %d with alarms, %d not applicable to HEAD'
+          % (len(rows), sum(not r[1] for r in done), sum(bool(r[1]) for r in done), len(rows) - len(done)))
 
 
 if __name__ == '__main__':
